@@ -155,7 +155,9 @@ Open Scope Z_scope.
                       lfs / mem a number >= 0 or not reported (None), every core / GPU DOWN or
                       occupied between FREE and BUSY; node names arbitrary (possibly all equal);
    op_ok            : the calls are find_slots / release_slots / verify / Node.find_slot with
-                      non-negative sizes and occupations (find_slots: core occupation > 0);
+                      non-negative sizes and occupations (find_slots: core occupation > 0), and
+                      Node.allocate_slot(slot, _check=True) with an application-made slot (non-negative indices,
+                      occupations, lfs, mem; a core or GPU may be named more than once);
    all_disciplined  : release_slots is given slots the application holds (got from find_slots and
                       not yet given back), counting repetitions;
    run .. ops       : the answer and the node list after every call (any number of calls);
